@@ -143,9 +143,11 @@ def avg_corr_part(ctx):
         ctx.dist('avg_corr_iterations', d['iters'])
         ctx.dist('avg_corr_types_leaves', f'{len(tnames)}/{len(owners)}')
         if d['n_recorded'] != d['iters']:
-            ctx.disagreements_checked += 1
-            d['class'] = 'c02-iteration-count'
-            ctx.violation(f'{d["n_recorded"]} bootstrap iterations were run, {d["iters"]} requested', d)
+            # the implementation no longer calls the neighbour search once per iteration: the recorded history is
+            # not the one the model is about -- a broken tie, not by itself a wrong output
+            d['class'] = 'corr:AvgCorr.iterations'
+            ctx.violation(f'{d["n_recorded"]} neighbour searches were recorded for {d["iters"]} bootstrap iterations: '
+                          f'the tie to Model.AvgCorr (one search per iteration) no longer holds', d, no_input=True)
             continue
         # the property's own statement, recomputed here from the recorded iterations
         votes = {t: 0 for t in tnames}
